@@ -1,7 +1,9 @@
 // c14: Glob, WalkDir, ReadDir and the existence helpers enumerate exactly what
 // exists. Model checking by bounded exhaustive enumeration: every tree of a
-// small universe (plain trees over the kinds, and mode trees whose entries
-// carry setuid/setgid/sticky and changed permission bits) x every pattern of
+// small universe (plain trees over the kinds, mode trees whose entries
+// carry setuid/setgid/sticky and changed permission bits, and name-shape trees
+// whose names share a prefix and continue with bytes at the edges of the ASCII,
+// rune-length and byte ranges) x every pattern of
 // <= k segments x every ReadDir path x every WalkDir root x every
 // callback behaviour at every visit index, executed on the real avfs file
 // systems and, as oracle, with path/filepath and os on an identical tree on
@@ -68,6 +70,8 @@ func runWorker(tier string, k, n int, deadline time.Time) {
 
 	c := newChecker(R, u, fmt.Sprintf("w%d", k))
 	trees := u.trees()
+	shapeFrom, shapeTo := u.shapeRange()
+	plain := u.plainQueries()
 	harness := ""
 
 	for i := k; i < len(trees); i += n {
@@ -84,8 +88,14 @@ func runWorker(tier string, k, n int, deadline time.Time) {
 			break
 		}
 
-		qr := oraclePass(R, u)
-		c.checkTree(es, ops, qr, fsNames, nil)
+		// the name-shape trees are asked about their own names
+		qs := plain
+		if c.shape = i >= shapeFrom && i < shapeTo; c.shape {
+			qs = u.shapeQueries(es)
+		}
+
+		qr := oraclePass(R, qs)
+		c.checkTree(es, ops, qs, qr, fsNames, nil)
 		c.st.TreesDone = append(c.st.TreesDone, i)
 
 		if len(c.st.Samples) < 4 && i%7 == 3 {
@@ -408,12 +418,13 @@ func main() {
 			"evaluations": totEvals, "distinct_nontrivial": len(classes),
 			"rule": "every tree of the universe is materialised with plain calls in a fresh instance of every file system (states) and on tmpfs at the same absolute path; " +
 				"every Glob pattern, ReadDir path and WalkDir (root, callback family, visit index) of the bound is evaluated on both and compared (transitions/evaluations), every accessor of every listed fs.DirEntry included; " +
+				"the name-shape trees (names sharing a prefix and continuing with bytes at the edges of the ASCII, rune-length and byte ranges) are asked the patterns that have these names as literal prefix, and ReadDir/WalkDir/helpers on their own paths, the oracle's byte order of every listing included; " +
 				"helpers are compared with Stat/ReadDir of the same instance; distinct_nontrivial = distinct (function, oracle result class) classes observed",
 			"samples": samples, "exhaustive": exhaustive, "bound": bound,
 			"states_per_fs": states, "evaluations_per_func": evals, "oracle_result_classes": classes,
 			"trees_in_universe": len(trees), "trees_completed": len(done), "workers": n,
-			"mode_trees_in_universe": len(u.modeTrees()),
-			"not_materialised":       buildFailed, "violation_instances": instances, "violation_signatures": sc,
+			"mode_trees_in_universe": len(u.modeTrees()), "name_shape_trees_in_universe": len(u.shapeTrees()),
+			"not_materialised": buildFailed, "violation_instances": instances, "violation_signatures": sc,
 			"known_findings_matched": matched, "budget_s": budget,
 		},
 		Assumptions: []string{
@@ -422,6 +433,7 @@ func main() {
 			"BasePathFS has base path R: arguments are translated R/x -> /x and oracle results likewise before comparing; R itself and R/ both map to /",
 			"compared: Glob error class, nil-ness and the ordered list; ReadDir error class, names in order and of every entry Type() bit for bit, IsDir(), Info(): success, mode (type, permission, setuid/setgid/sticky bits), regular-file size, Name(), IsDir(); WalkDir visit sequence (path, type, IsDir, error class), of every visited entry Name() (below the root) and Type() bit for bit, in the walks whose callback never acts (families none, prop) also Info() as for ReadDir, and the returned error class. Not compared with the oracle: the name of the root entry of a walk (it is what Lstat answers for the spelling given), symlink sizes, modification times, nil versus empty ReadDir slices",
 			"every listed entry is also held to itself and to Lstat of the same path on the same file system: Name/IsDir/Type agree with Info(), IsDir with Type, and Info() name, mode, size, modification time, IsDir equal Lstat's (skipped where Lstat or Info fails, e.g. unsearchable directory)",
+			"name-shape trees: names are byte strings; tmpfs accepts every name of the alphabet (0x7f, U+10FFFF and the byte 0xff, which is not UTF-8, included) and os.ReadDir / filepath.Glob / filepath.WalkDir list them in byte order; these trees hold files and directories only (every file system gets them), with creation modes; patterns without a literal prefix other than * and patterns with empty segments are left to the plain trees; in signatures and replay files bytes outside printable ASCII are written <xx> / <U+XXXX> (replay files carry the exact bytes in *_hex fields)",
 			"mode trees: modes are given with Chmod after creation (not with the perm argument of Mkdir/OpenFile, whose handling of special bits belongs to C01/C03); a tree whose mode the scratch file system does not keep is a harness error; everything is owned by root",
 			"helpers are only held to their documented meaning: Exists <=> Stat succeeds, DirExists <=> Stat succeeds and is a directory, IsDir = Stat, IsEmpty = no entries / size 0; which error accompanies a false answer is not compared",
 			"non-administrator part: MemFS view (Sub(\"/\") + SetUser) versus the kernel under setfsuid/setfsgid with supplementary groups dropped on a locked thread; small fixed family of trees with one directory of mode 0000/0111/0444",
